@@ -91,19 +91,23 @@ Print Assumptions C09_links_reach.
 Theorem C09_links_base : forall parent r s je fe sn, BL (new_array parent r s je fe sn).
 Proof. exact BL_new_array. Qed.
 
-(* C09_head_refines_partial (soundness half): in every such state, when FindHead answers, the head is the start node or one of its
-   fork-choice descendants (positional ancestry, the relation of WInv) and it is viable. That it is the ARGMAX descendant
+(* C09_head_refines_partial (soundness half): in every such state, when FindHead answers, the head is viable and is the start node,
+   one of its fork-choice descendants (positional ancestry, the relation of WInv), or - for a start on an empty slot that is not
+   the first node of its root (fixes/C10-gap-anchor-prune-head.diff) - a fork-choice descendant of a block built on the start's
+   root after the start slot. That it is the ARGMAX descendant
    (best_links_inv proper: greatest (weight, root) among the children leading to a viable node, at every level) is NOT proved. *)
 Theorem C09_head_sound_partial : forall pa r s pa1 h, lreach pa -> FindHead fixed r s pa = (pa1, Ok h) ->
   exists ia ih nh, idx_get (pa_idx pa1) (r, s) = Some (pa_off pa1 + N.of_nat ia) /\
-                   nth_error (pa_nodes pa1) ih = Some nh /\ n_ref nh = h /\
-                   anc (fps_of pa1) ih ia = true /\ viable pa1 nh = true.
+                   nth_error (pa_nodes pa1) ih = Some nh /\ n_ref nh = h /\ viable pa1 nh = true /\
+                   (anc (fps_of pa1) ih ia = true \/
+                    exists ic nc, nth_error (pa_nodes pa1) ic = Some nc /\ n_parent nc = r /\ fst (n_ref nc) <> r /\
+                                  s < snd (n_ref nc) /\ anc (fps_of pa1) ih ic = true).
 Proof. exact head_sound_partial. Qed.
 Print Assumptions C09_head_sound_partial.
 
-(* the Spec's head, when there is one, is a viable node of the tree *)
+(* the Spec's head, when there is one, is a viable node of the tree and descends from the start node *)
 Theorem C09_spec_head_sound : forall s start e,
-  spec_find_head s start = Ok e -> In e (ss_tree s) /\ s_viable s e = true.
+  spec_find_head s start = Ok e -> In e (ss_tree s) /\ is_desc (ss_tree s) start e = true /\ s_viable s e = true.
 Proof. exact spec_head_sound. Qed.
 Print Assumptions C09_spec_head_sound.
 
